@@ -306,6 +306,52 @@ theorem twist_natural [DecidableEq O] (B : Backend) (hB : B.Lawful) (f g : OHG O
   exact glue_twist_natural (wfP hf) (wfP hg) (plain_outs_length hf hft) (plain_ins_length hg hgs)
     tL tR gl gr
 
+/-- hypotheses satisfiable: `f = C01.exF : [10] → [20,20,20]`, `g = exH' : [30] → [40,40]`; the two
+    sides list nodes and edges in different orders -/
+example : C01.exF.wf = true ∧ exH'.wf = true ∧ C01.exF.source = .ok [10] ∧
+    C01.exF.target = .ok [20, 20, 20] ∧ exH'.source = .ok [30] ∧ exH'.target = .ok [40, 40] ∧
+    (OHG.toPlain <$> (OHG.tensor C01.exF exH' >>= fun x => OHG.twist [20, 20, 20] [40, 40] >>=
+      fun s => OHG.compose vecBackend x s)) =
+      .ok ⟨[10, 20, 20, 40, 30], [⟨7, [0], [1, 2]⟩, ⟨9, [4], [3]⟩], [0, 4], [3, 3, 1, 1, 2]⟩ ∧
+    (OHG.toPlain <$> (OHG.twist [10] [30] >>= fun s => OHG.tensor exH' C01.exF >>= fun y =>
+      OHG.compose vecBackend s y)) =
+      .ok ⟨[30, 10, 40, 20, 20], [⟨9, [0], [2]⟩, ⟨7, [1], [3, 4]⟩], [1, 0], [2, 2, 3, 3, 4]⟩ := by
+  decide
+
+/-- naturality in the first argument: `(f ⊗ id_c) ; σ_{b,c} ≅ σ_{a,c} ; (id_c ⊗ f)` -/
+theorem twist_natural_left [DecidableEq O] (B : Backend) (hB : B.Lawful) (f : OHG O A)
+    (a b c : List O) (hf : f.wf = true) (hfs : f.source = .ok a) (hft : f.target = .ok b) :
+    ∃ l r,
+      (OHG.identity c >>= fun i => OHG.tensor f i >>= fun x => OHG.twist b c >>= fun s =>
+        OHG.compose B x s) = .ok l ∧
+      (OHG.twist a c >>= fun s => OHG.identity c >>= fun i => OHG.tensor i f >>= fun y =>
+        OHG.compose B s y) = .ok r ∧
+      l.wf = true ∧ r.wf = true ∧ l.toPlain ≅ r.toPlain := by
+  obtain ⟨i, ei, wi, si, ti, _⟩ := identity_facts (A := A) c
+  obtain ⟨l, r, h1, h2, h3⟩ := twist_natural B hB f i a b c c hf wi hfs hft si ti
+  refine ⟨l, r, by rw [ei]; exact h1, ?_, h3⟩
+  cases ht : (OHG.twist a c : Res (OHG O A)) with
+  | ok s => rw [ht] at h2; rw [ei]; exact h2
+  | none => rw [ht] at h2; cases h2
+  | panic m => rw [ht] at h2; cases h2
+
+/-- naturality in the second argument: `(id_c ⊗ g) ; σ_{c,b} ≅ σ_{c,a} ; (g ⊗ id_c)` -/
+theorem twist_natural_right [DecidableEq O] (B : Backend) (hB : B.Lawful) (g : OHG O A)
+    (a b c : List O) (hg : g.wf = true) (hgs : g.source = .ok a) (hgt : g.target = .ok b) :
+    ∃ l r,
+      (OHG.identity c >>= fun i => OHG.tensor i g >>= fun x => OHG.twist c b >>= fun s =>
+        OHG.compose B x s) = .ok l ∧
+      (OHG.twist c a >>= fun s => OHG.identity c >>= fun i => OHG.tensor g i >>= fun y =>
+        OHG.compose B s y) = .ok r ∧
+      l.wf = true ∧ r.wf = true ∧ l.toPlain ≅ r.toPlain := by
+  obtain ⟨i, ei, wi, si, ti, _⟩ := identity_facts (A := A) c
+  obtain ⟨l, r, h1, h2, h3⟩ := twist_natural B hB i g c c a b wi hg si ti hgs hgt
+  refine ⟨l, r, by rw [ei]; exact h1, ?_, h3⟩
+  cases ht : (OHG.twist c a : Res (OHG O A)) with
+  | ok s => rw [ht] at h2; rw [ei]; exact h2
+  | none => rw [ht] at h2; cases h2
+  | panic m => rw [ht] at h2; cases h2
+
 /-! ### 6. the hexagon identities -/
 
 /-- the plain diagram of an identity -/
@@ -325,19 +371,128 @@ theorem compose_idleg [DecidableEq O] (B : Backend) (hB : B.Lawful) (x y r : OHG
   rw [px] at gl t hS
   exact glue_idleg_left (wfP wy) hS t gl
 
-theorem range_append_map (n m k : Nat) (h : k = n) :
-    List.range n ++ (List.range m).map (k + ·) = List.range (n + m) := by
-  subst h
-  rw [← List.range'_eq_map_range, range_append_range']
+theorem iso_of_eq_right {P Q Q' : PDiag O A} (h : P ≅ Q) (e : Q = Q') : P ≅ Q' := e ▸ h
 
-example (a b c : List O) : True := by
-  have : PDiag.juxt (twistP a b : PDiag O A) (idP c) = ⟨(b ++ a) ++ c, [], 
-     (List.range' b.length a.length ++ List.range b.length) ++ (List.range c.length).map ((b ++ a).length + ·), List.range ((b ++ a) ++ c).length⟩ := by
-    simp only [PDiag.juxt, twistP, idP, PDiag.mk.injEq, PDiag.n]
-    refine ⟨trivial, ?_, trivial, ?_⟩
-    · rfl
-    · rw [range_append_map _ _ _ (by simp; omega)]
-      simp
-  trivial
+/-- HEXAGON: `σ_{a, b ● c} ≅ (σ_{a,b} ⊗ id_c) ; (id_b ⊗ σ_{a,c})` -/
+theorem hexagon [DecidableEq O] (B : Backend) (hB : B.Lawful) (a b c : List O) :
+    ∃ l r : OHG O A, OHG.twist a (b ++ c) = .ok l ∧
+      (OHG.twist a b >>= fun s1 => OHG.identity c >>= fun i1 => OHG.tensor s1 i1 >>= fun x =>
+        OHG.identity b >>= fun i2 => OHG.twist a c >>= fun s2 => OHG.tensor i2 s2 >>= fun y =>
+          OHG.compose B x y) = .ok r ∧
+      l.wf = true ∧ r.wf = true ∧ l.toPlain ≅ r.toPlain := by
+  obtain ⟨l, el, wl, _, _, pl⟩ := twist_facts (A := A) a (b ++ c)
+  obtain ⟨s1, e1, w1, _, t1, p1⟩ := twist_facts (A := A) a b
+  obtain ⟨i1, f1, v1, _, ti1, q1⟩ := identity_facts (A := A) c
+  obtain ⟨x, ex, wx, px, _, tx⟩ := tensor_facts s1 i1 w1 v1
+  obtain ⟨i2, f2, v2, si2, _, q2⟩ := identity_facts (A := A) b
+  obtain ⟨s2, e2, w2, ss2, _, p2⟩ := twist_facts (A := A) a c
+  obtain ⟨y, ey, wy, py, sy, _⟩ := tensor_facts i2 s2 v2 w2
+  have hty : x.target = y.source := by
+    rw [tx, sy, t1, ti1, si2, ss2]
+    show Res.ok ((b ++ a) ++ c) = Res.ok (b ++ (a ++ c))
+    rw [List.append_assoc]
+  obtain ⟨r, er, wr, _, _, _⟩ := compose_facts B hB x y wx wy hty
+  refine ⟨l, r, el, by rw [e1, f1]; simp only [Res.ok_bind]; rw [ex, f2, e2]; simp only [Res.ok_bind]; rw [ey]; exact er,
+    wl, wr, ?_⟩
+  have px' : x.toPlain = ⟨(b ++ a) ++ c, [],
+      (List.range' b.length a.length ++ List.range b.length) ++
+        (List.range c.length).map ((b ++ a).length + ·), List.range ((b ++ a) ++ c).length⟩ := by
+    rw [px, p1, q1]
+    simp only [PDiag.juxt, PDiag.mk.injEq, PDiag.n]
+    refine ⟨trivial, rfl, trivial, ?_⟩
+    rw [range_append_map _ _ _ (by simp; omega)]
+    congr 1; simp; omega
+  have h := compose_idleg B hB x y r _ _ wx wy hty px' er
+  rw [py, q2, p2] at h
+  rw [pl]
+  apply iso_symm (wfP wr)
+  refine iso_of_eq_right h ?_
+  simp only [PDiag.juxt, PDiag.mk.injEq, PDiag.n]
+  refine ⟨(List.append_assoc _ _ _).symm, rfl, ?_, ?_⟩
+  · exact hexagon_ins _ _ _ _ _ _ (by simp) rfl (by simp)
+  · rw [range_append_map _ _ _ rfl]
+    congr 1; simp; omega
+
+/-- MIRROR HEXAGON: `σ_{a ● b, c} ≅ (id_a ⊗ σ_{b,c}) ; (σ_{a,c} ⊗ id_b)` -/
+theorem hexagon_mirror [DecidableEq O] (B : Backend) (hB : B.Lawful) (a b c : List O) :
+    ∃ l r : OHG O A, OHG.twist (a ++ b) c = .ok l ∧
+      (OHG.identity a >>= fun i1 => OHG.twist b c >>= fun s1 => OHG.tensor i1 s1 >>= fun x =>
+        OHG.twist a c >>= fun s2 => OHG.identity b >>= fun i2 => OHG.tensor s2 i2 >>= fun y =>
+          OHG.compose B x y) = .ok r ∧
+      l.wf = true ∧ r.wf = true ∧ l.toPlain ≅ r.toPlain := by
+  obtain ⟨l, el, wl, _, _, pl⟩ := twist_facts (A := A) (a ++ b) c
+  obtain ⟨i1, f1, v1, _, ti1, q1⟩ := identity_facts (A := A) a
+  obtain ⟨s1, e1, w1, _, t1, p1⟩ := twist_facts (A := A) b c
+  obtain ⟨x, ex, wx, px, _, tx⟩ := tensor_facts i1 s1 v1 w1
+  obtain ⟨s2, e2, w2, ss2, _, p2⟩ := twist_facts (A := A) a c
+  obtain ⟨i2, f2, v2, si2, _, q2⟩ := identity_facts (A := A) b
+  obtain ⟨y, ey, wy, py, sy, _⟩ := tensor_facts s2 i2 w2 v2
+  have hty : x.target = y.source := by
+    rw [tx, sy, t1, ti1, si2, ss2]
+    show Res.ok (a ++ (c ++ b)) = Res.ok ((a ++ c) ++ b)
+    rw [List.append_assoc]
+  obtain ⟨r, er, wr, _, _, _⟩ := compose_facts B hB x y wx wy hty
+  refine ⟨l, r, el, by
+    rw [f1, e1]; simp only [Res.ok_bind]; rw [ex, e2, f2]; simp only [Res.ok_bind]; rw [ey]
+    exact er, wl, wr, ?_⟩
+  have px' : x.toPlain = ⟨a ++ (c ++ b), [],
+      List.range a.length ++ (List.range' c.length b.length ++ List.range c.length).map (a.length + ·),
+      List.range (a ++ (c ++ b)).length⟩ := by
+    rw [px, p1, q1]
+    simp only [PDiag.juxt, PDiag.mk.injEq, PDiag.n]
+    refine ⟨trivial, rfl, trivial, ?_⟩
+    rw [range_append_map _ _ _ rfl]
+    congr 1; simp; omega
+  have h := compose_idleg B hB x y r _ _ wx wy hty px' er
+  rw [py, q2, p2] at h
+  rw [pl]
+  apply iso_symm (wfP wr)
+  refine iso_of_eq_right h ?_
+  simp only [PDiag.juxt, PDiag.mk.injEq, PDiag.n]
+  refine ⟨List.append_assoc _ _ _, rfl, ?_, ?_⟩
+  · exact hexagon_mirror_ins _ _ _ _ _ _ rfl (by simp) (by simp)
+  · rw [range_append_map _ _ _ (by simp; omega)]
+    congr 1; simp; omega
+
+/-- both hexagons on concrete types (the composites number the nodes differently from the single
+    symmetry) -/
+example :
+    (OHG.toPlain <$> (OHG.twist [1, 2] ([3] ++ [4, 5]) : Res (OHG Nat Nat))) =
+      .ok ⟨[3, 4, 5, 1, 2], [], [3, 4, 0, 1, 2], [0, 1, 2, 3, 4]⟩ ∧
+    (OHG.toPlain <$> ((OHG.twist [1, 2] [3] >>= fun s1 => OHG.identity [4, 5] >>= fun i1 =>
+      OHG.tensor s1 i1 >>= fun x => OHG.identity [3] >>= fun i2 => OHG.twist [1, 2] [4, 5] >>=
+      fun s2 => OHG.tensor i2 s2 >>= fun y => OHG.compose vecBackend x y) : Res (OHG Nat Nat))) =
+      .ok ⟨[3, 1, 2, 4, 5], [], [1, 2, 0, 3, 4], [0, 3, 4, 1, 2]⟩ ∧
+    (OHG.toPlain <$> (OHG.twist ([1, 2] ++ [3]) [4, 5] : Res (OHG Nat Nat))) =
+      .ok ⟨[4, 5, 1, 2, 3], [], [2, 3, 4, 0, 1], [0, 1, 2, 3, 4]⟩ ∧
+    (OHG.toPlain <$> ((OHG.identity [1, 2] >>= fun i1 => OHG.twist [3] [4, 5] >>= fun s1 =>
+      OHG.tensor i1 s1 >>= fun x => OHG.twist [1, 2] [4, 5] >>= fun s2 => OHG.identity [3] >>=
+      fun i2 => OHG.tensor s2 i2 >>= fun y => OHG.compose vecBackend x y) : Res (OHG Nat Nat))) =
+      .ok ⟨[1, 2, 4, 5, 3], [], [0, 1, 4, 2, 3], [2, 3, 0, 1, 4]⟩ := by decide
+
+/-! ### reading the statements as "whenever both sides are defined" -/
+
+/-- the shape `∃ l r, lhs = ok l ∧ rhs = ok r ∧ P l r` used above implies the conditional reading
+    `∀ l r, lhs = ok l → rhs = ok r → P l r` (the operations are functions) -/
+theorem of_defined {α β : Type} {x : Res α} {y : Res β} {P : α → β → Prop}
+    (h : ∃ l r, x = .ok l ∧ y = .ok r ∧ P l r) (l : α) (r : β) (hl : x = .ok l) (hr : y = .ok r) :
+    P l r := by
+  obtain ⟨l', r', h1, h2, h3⟩ := h
+  rw [hl] at h1
+  rw [hr] at h2
+  cases h1
+  cases h2
+  exact h3
+
+/-- e.g. associativity in the conditional form -/
+theorem comp_assoc' [DecidableEq O] (B : Backend) (hB : B.Lawful) (f g h fg gh l r : OHG O A)
+    (hf : f.wf = true) (hg : g.wf = true) (hh : h.wf = true)
+    (h1 : f.target = g.source) (h2 : g.target = h.source)
+    (e1 : OHG.compose B f g = .ok fg) (e2 : OHG.compose B fg h = .ok l)
+    (e3 : OHG.compose B g h = .ok gh) (e4 : OHG.compose B f gh = .ok r) :
+    l.toPlain ≅ r.toPlain := by
+  have := of_defined (P := fun l r : OHG O A => l.wf = true ∧ r.wf = true ∧ l.toPlain ≅ r.toPlain)
+    (comp_assoc B hB f g h hf hg hh h1 h2) l r (by rw [e1]; exact e2) (by rw [e3]; exact e4)
+  exact this.2.2
 
 end OH.C03
